@@ -28,3 +28,23 @@ func H_C13_distributed() {
 		vAssert("C13.submitted-counts-notifications", w.Metrics().Submitted() == exp)
 	})
 }
+
+// ---- C13: every "enqueued" notification counts as one submission in the consumer's metrics, whether or not
+// its workers are busy at that moment (in-flight count symbolic, set as ghost state).
+func H_C13_notify_counts() {
+	inflight := vNondetRange(0, 2)
+	wb := NewWorker(func(j Job[int]) {}, 2).(*workerBinder[int])
+	w := wb.worker
+	a := &hAdapter{}
+	w.queues.Register(a)
+	w.status.Store(running)
+	w.curProcessing.Store(uint32(inflight))
+	before := w.Metrics().Submitted()
+	wb.handleQueueSubscription("enqueued")
+	wb.handleQueueSubscription("enqueued")
+	vAssert("C13.each-notification-counts", w.Metrics().Submitted() == before+2)
+	wb.handleQueueSubscription("something-else")
+	vAssert("C13.other-actions-ignored", w.Metrics().Submitted() == before+2)
+	vPrologueEnd()
+	vReach("C13.notify.end")
+}
